@@ -25,9 +25,20 @@ REQUIRED = ["M22_inverse_spec", "M22_inverse_mul", "M22_inverse_singular", "M22_
             # what det != 0 gives (true inverse <=> |det| >= 1 or all entries of the exact inverse of the guarded block < 1/tmin)
             "M22_inverse_true_iff", "M33_inverse_true_iff", "M33_inverse_affine_true_iff", "M44_inverse_affine_true_iff",
             # when the affine arm and the general arm DECIDE differently
-            "M33_general_guard_iff", "M33_arms_disagree_iff", "M33_arms_disagree_entry", "M44_affine_vs_gj", "M44_arms_disagree"]
+            "M33_general_guard_iff", "M33_arms_disagree_iff", "M33_arms_disagree_entry", "M44_affine_vs_gj", "M44_arms_disagree",
+            "M33_general_guard_imp_affine_guard",
+            # ... tied to the extracted code (both arms of Gen.M33.inverse in one statement)
+            "M33_adjugate_row2_of_cols", "M33_fast_path_accepts_general_refuses_iff", "M33_jump_of_translation_cofactor",
+            # auxiliaries the above cite
+            "M33_det_affine", "M44_det_affine", "M33_inverse_of_one_le_abs_det", "M33_gjInverse_eq_adjugate", "M44_gjInverse_eq_adjugate"]
 # the three recorded findings (KNOWN_FINDINGS.jsonl): cofactor arms lose cond^2*eps
 COFACTOR_PATHS = ("M33.inverse:cofactor-general-arm", "M44.inverse:cofactor-affine-arm")
+# ... which must not absorb a NEW defect: ceilings under keys that are NOT known findings (harness: C2, WELLCOND)
+C2 = 1              # err <= C2*cond^2*eps*|X| where cond^2*eps <= 1/16; clean-tree maximum 0.43 (seeds 1-5, thorough size); jump: 2*C2, maximum 0.25
+WELLCOND = 100      # for cond <= WELLCOND the cofactor arms DO meet 8*cond*eps*|X| (clean-tree maximum 0.79): violation otherwise
+# drift ceilings of the conforming paths: clean-tree maxima over seeds 1-5 at the thorough size + ~0.4 (the property's bound CBOUND is 8 / 16)
+DRIFT = {"M22.inverse": (1.10, 1.5), "M33.gjInverse": (0.64, 1.0), "M33.inverse:affine-arm": (0.43, 0.8), "M44.gjInverse": (0.41, 0.8),
+         "M44.inverse:nonaffine-arm": (0.41, 0.8), "affine-jump:M33.inverse": (0.69, 1.1)}
 
 
 # ---------------------------------------------------------------------------------------------------------------
@@ -193,11 +204,18 @@ def correspondence(chk, binary, n):
     # exact classes: the same model in exact rational arithmetic gives the very same numbers (no operation rounded)
     ex = {k: v for k, v in perclass.items() if k.startswith("ex-")}
     exn, exq = sum(v["cases"] for v in ex.values()), sum(v["exact_in_Rat"] for v in ex.values())
-    okx = exn > 0 and exq >= 0.9 * exn and all(v["exact_in_Rat"] > 0 for v in ex.values())
-    chk.oblige("correspondence:exact: on dyadic matrices with power-of-two pivots the real result equals the model evaluated over Rat (%d of %d)" % (exq, exn),
-               "correspondence", okx, None if okx else ex)
+    # per class and type: the classes exact BY CONSTRUCTION (signed scaled permutations; L*U with power-of-two pivots and a zero pivot at
+    # stage c) must be exact in every case; singular dyadic >= 98 % (clean tree: 1 inexact in 8,000); general dyadic products (pivots
+    # chosen by partial pivoting need not be powers of two) >= 88 % (clean tree: 91.3 - 98.7 %)
+    def floor_of(cls):
+        return 1.0 if cls.startswith(("ex-perm", "ex-stage")) else 0.98 if cls.startswith("ex-singular") else 0.88
+    low = {k: "%d of %d" % (v["exact_in_Rat"], v["cases"]) for k, v in ex.items() if v["exact_in_Rat"] < floor_of(k) * v["cases"]}
+    okx = exn > 0 and not low and all(v["cases"] > 0 for v in ex.values())
+    chk.oblige("correspondence:exact: real result == model evaluated over Rat (no operation rounded): ALL ex-perm / ex-stage cases, >= 98 %% of ex-singular, "
+               ">= 88 %% of ex-dyadic, per dimension and type (%d of %d overall)" % (exq, exn),
+               "correspondence", okx, None if okx else low)
     if not okx:
-        chk.fail("correspondence:exact", "corr:exact-classes", "real gjInverse differs from exact rational arithmetic on dyadic matrices", ex, False)
+        chk.fail("correspondence:exact", "corr:exact-classes", "real gjInverse differs from exact rational arithmetic on dyadic matrices more often than on the calibrated tree", {"below_floor": low, "all": ex}, False)
     oks = int(summ.group(3)) == 0 and not selffails
     chk.oblige("correspondence:spellings: in-place forms: gjInvert()/gjInvert(true)/invert() leave what gjInverse()/inverse() return; gjInverse(true)/(false), inverse(true)/(false), invert(false) values = the noexcept forms; "
                "M44.inverse() non-affine = gjInverse()  (%s in-process checks)" % summ.group(2), "correspondence", oks, selffails[:3] or None)
@@ -294,8 +312,9 @@ def exhaustive(chk, binary):
         k = "%s exit=%s swap=%s" % (exp.split()[0], f.get("exit"), f.get("swap"))
         patterns[k] = patterns.get(k, 0) + 1
     # all 4 exits x all 4 exchange patterns that can precede them (3x3): -,0,1,01 with no exit or the backward exit; -,0 before f1; - before f0
-    want = ["3d exit=%s swap=%s" % (e, w) for e, ws in (("-", ("-", "0", "1", "01")), ("b2", ("-", "0", "1", "01")), ("f1", ("-", "0")), ("f0", ("-",))) for w in ws]
-    missing = [w for w in want if not patterns.get(w)]
+    want = ["%s exit=%s swap=%s" % (nt, e, w) for nt in ("3d", "3f")
+            for e, ws in (("-", ("-", "0", "1", "01")), ("b2", ("-", "0", "1", "01")), ("f1", ("-", "0")), ("f0", ("-",))) for w in ws]
+    missing = [w for w in want if patterns.get(w, 0) < 20]          # a floor, not `> 0` (smallest clean-tree count: 64)
     efail = [l for l in lines if l.startswith("EXH-FAIL") or l.startswith("SELF-FAIL")]
     ok = not bad and not missing and not efail and int(summ.group(3)) == 0 and int(summ.group(5)) == 0 and len(model) == len(cases)
     chk.oblige(name, "correspondence", ok, None if ok else ([b[0] for b in bad[:3]] + missing[:3] + efail[:3]))
@@ -324,7 +343,8 @@ def exhaustive(chk, binary):
 
 def residue(chk, binary, n):
     rc, out = lib.sh([binary, "residue", str(chk.seed), str(n), str(CBOUND)], timeout=3600)
-    summ = re.search(r"RESIDUE evals=(\d+) failures=(\d+) bound=(\S+) det_ge1=(\d+) det_lt1=(\d+) guard_identity=(\d+) finite_checked=(\d+) lattice_checked=(\d+) dynamic_range_excluded_from_finiteness=(\d+)", out)
+    summ = re.search(r"RESIDUE evals=(\d+) failures=(\d+) bound=(\S+) det_ge1=(\d+) det_lt1=(\d+) guard_identity=(\d+) finite_checked=(\d+) lattice_checked=(\d+) dynamic_range_excluded_from_finiteness=(\d+) "
+                     r"outside_range_checked=(\d+) outside_range_nonfinite=(\d+)", out)
     if not summ:
         chk.oblige("residue", "residue", False, out[-500:])
         chk.fail("residue", "residue:run", "residue harness failed to run", {"output": out[-2000:]}, False)
@@ -346,27 +366,56 @@ def residue(chk, binary, n):
             text = "residue:%s: integer lattice, every entry produced by one division is the correctly rounded adj/det (%d matrices)" % (name, p["judged"])
         elif name.startswith("affine-jump:"):
             text = "residue:%s: inverse of an affine matrix vs the same with one last-column entry moved by one ulp agree to %g*cond*eps*|X| (%d pairs)" % (name, 2 * CBOUND, p["judged"])
+        elif name.startswith("affine-jump2:"):
+            text = ("residue:%s: CEILING (not a known finding): the two inverses agree to %g*cond^2*eps*|X| wherever cond^2*eps <= 1/16 (%d of %d pairs)"
+                    % (name, 2 * C2, p["judged"], p["cases"]))
+        elif name.startswith("accuracy2:"):
+            text = ("residue:%s: CEILING on the recorded cofactor-arm finding (not itself a known finding): error <= %g*cond^2*eps*|X| wherever cond^2*eps <= 1/16 "
+                    "(%d of %d judged)" % (name, C2, p["judged"], p["cases"]))
+        elif name.startswith("accuracy-wellcond:"):
+            text = "residue:%s: the cofactor arm meets the property's %g*cond*eps*|X| for cond <= %g (%d judged; not a known finding)" % (name, CBOUND, WELLCOND, p["judged"])
         else:
             text = "residue:accuracy:%s: error <= %g*cond*eps*|X| up to cond 1/eps, finite below 1/eps^2 (%d judged)" % (name, CBOUND, p["judged"])
-        chk.oblige(text, "residue", p["fails"] == 0 and p["nonfinite"] == 0 and p["cases"] > 0,
+        chk.oblige(text, "residue", p["fails"] == 0 and p["nonfinite"] == 0 and p["cases"] > 0 and (p["judged"] >= 100 or not name.startswith("acc")),
                    None if p["fails"] == 0 else {"failures": p["fails"], "worst": {k: v for k, v in p.items() if k.startswith("worst")}})
+    for arm in COFACTOR_PATHS:
+        for fam in ("accuracy2:", "accuracy-wellcond:"):
+            if fam + arm not in paths:
+                chk.oblige("residue:%s%s: judged" % (fam, arm), "residue", False, "no RPATH line")
+                chk.fail("residue:" + fam + arm, "residue:" + fam + arm + ":missing", "the ceiling on the cofactor arm was not judged", {}, False)
+    # drift: the conforming paths have ~10x headroom to the property's bound; a regression costing a few x is held by these
+    # ceilings (clean-tree maximum + ~0.4), under their own keys
+    for name, (cal, ceil) in sorted(DRIFT.items()):
+        p = paths.get(name, {})
+        w = max(p.get("worst_double", 0), p.get("worst_float", 0))
+        ok = bool(p) and w <= ceil
+        chk.oblige("residue:drift:%s: worst measured %.3g <= %g (clean-tree maximum %.2g over seeds 1-5 at the thorough size; the property's bound is %g)"
+                   % (name, w, ceil, cal, 2 * CBOUND if name.startswith("affine-jump") else CBOUND), "residue", ok, None if ok else p)
+        if not ok:
+            chk.fail("residue:drift:" + name, "residue:drift:" + name, "%s: measured worst error %.3g (units of cond*eps*|X|) is above the drift ceiling %g although below the "
+                     "property's bound: the path has become less accurate than on the calibrated tree" % (name, w, ceil), p, False)
     # the overflow guard against its independent float-level specification (harness: guardSpec); identity results are
     # accepted only where that spec asks for them or cannot decide
     guards = {}
-    for m in re.finditer(r"RGUARD (\S+) (d|f) n=(\d+) must_divide=(\d+) must_identity=(\d+) band=(\d+) ties=(\d+) unique_fail_positions=(\d+)/(\d+) fails=(\d+)", out):
+    for m in re.finditer(r"RGUARD (\S+) (d|f) n=(\d+) must_divide=(\d+) must_identity=(\d+) band=(\d+) ties=(\d+) unique_fail_positions=(\d+)/(\d+) fails=(\d+) edge_cases=(\d+) edge_band=(\d+)", out):
         g = guards.setdefault(m.group(1), {"cases": 0, "spec_says_divide": 0, "spec_says_identity": 0, "undecided_band": 0, "exact_ties": 0, "fails": 0, "by_type": {}})
         for k, i in (("cases", 3), ("spec_says_divide", 4), ("spec_says_identity", 5), ("undecided_band", 6), ("exact_ties", 7), ("fails", 10)):
             g[k] += int(m.group(i))
         g["by_type"][m.group(2)] = {"divide": int(m.group(4)), "identity": int(m.group(5)), "ties": int(m.group(7)),
-                                    "positions_hit_as_the_only_failing_cofactor": int(m.group(8)), "positions": int(m.group(9))}
+                                    "positions_hit_as_the_only_failing_cofactor": int(m.group(8)), "positions": int(m.group(9)),
+                                    "guard_edge_cases_built_to_be_decided": int(m.group(11)), "of_which_in_the_band": int(m.group(12))}
     for name in ("M22.inverse", "M33.inverse:affine-arm", "M33.inverse:cofactor-general-arm", "M44.inverse:cofactor-affine-arm"):
         g = guards.get(name, {"cases": 0, "fails": 1, "by_type": {}, "spec_says_divide": 0, "spec_says_identity": 0})
         bt = g["by_type"]
-        reach = all(bt.get(t, {}).get("divide", 0) > 0 and bt.get(t, {}).get("identity", 0) > 0 and bt.get(t, {}).get("ties", 0) > 0
-                    and bt.get(t, {}).get("positions", 0) > 0 and bt[t]["positions_hit_as_the_only_failing_cofactor"] == bt[t]["positions"] for t in ("d", "f"))
+        # floors, not `> 0`: per type at least 200 decided guard-edge cases, at least 100 of each verdict, at most 2 % of the guard-edge
+        # cases built to be decided may end in the band (clean tree: 0 - 0.09 %)
+        reach = all(bt.get(t, {}).get("divide", 0) >= 100 and bt.get(t, {}).get("identity", 0) >= 100 and bt.get(t, {}).get("ties", 0) > 0
+                    and bt.get(t, {}).get("positions", 0) > 0 and bt[t]["positions_hit_as_the_only_failing_cofactor"] == bt[t]["positions"]
+                    and bt[t]["guard_edge_cases_built_to_be_decided"] >= 200
+                    and bt[t]["of_which_in_the_band"] * 50 <= bt[t]["guard_edge_cases_built_to_be_decided"] for t in ("d", "f"))
         ok = g["fails"] == 0 and reach
         chk.oblige("residue:guard:%s: identity <=> |det| < 1 and |det|/min() <= some |cofactor| (quad spec with rounding band; %d must-divide, %d must-be-identity, "
-                   "every cofactor position hit as the only failing one, exact ties)" % (name, g["spec_says_divide"], g["spec_says_identity"]),
+                   "every cofactor position hit as the only failing one, exact ties, <= 2 %% of the decided guard-edge classes in the band)" % (name, g["spec_says_divide"], g["spec_says_identity"]),
                    "residue", ok, None if ok else g)
         if g["fails"] == 0 and not reach:
             chk.fail("residue:guard:" + name, "residue:guard-reach:" + name, "the guard-edge generator no longer reaches both verdicts / every cofactor position for " + name, g, False)
@@ -381,13 +430,25 @@ def residue(chk, binary, n):
             j[k] += int(m.group(i))
     for fn, thm in (("M33.inverse", "M33_arms_disagree_iff"), ("M44.inverse", "M44_affine_vs_gj")):
         j = jumps.get(fn, {"one_side_identity": 0, "unexplained": 1, "within_cond_1/eps": 0, "arms_disagree_as_in_theorem": 0})
-        ok = j["unexplained"] == 0 and j["within_cond_1/eps"] == 0 and j["arms_disagree_as_in_theorem"] > 0
+        ok = j["unexplained"] == 0 and j["within_cond_1/eps"] == 0 and j["arms_disagree_as_in_theorem"] >= 100
         chk.oblige("residue:affine-jump-identity:%s: pairs with the identity on ONE side only are counted, not skipped (%d): each side is what the spec of its arm decides "
                    "(%d are the arms disagreeing on the affine matrix itself as characterised by %s, %d the perturbation crossing the threshold, %d in the rounding band), "
                    "none with cond <= 1/eps" % (fn, j["one_side_identity"], j["arms_disagree_as_in_theorem"], thm, j.get("perturbation_crossed_threshold", 0), j.get("band", 0)),
                    "residue", ok, None if ok else j)
         if j["unexplained"] == 0 and j["within_cond_1/eps"] == 0 and not ok:
             chk.fail("residue:affine-jump-identity:" + fn, "residue:jump-reach:" + fn, "no pair exhibits the exact-arithmetic disagreement of the two arms any more", j, False)
+    # inputs OUTSIDE the property's dynamic-range quantifier (a non-zero entry below eps^2*max|entry|) with cond < 1/eps^2 are not
+    # claimed finite; they are still run against the weaker statement "finite unless the exact inverse is not representable" and
+    # the share of exceptions is bounded, so that a new inf/NaN source on e.g. denormal-perturbed affine matrices is visible
+    # (clean tree: 0 of ~12,000 quick; 3 of ~800,000 at the thorough size over seeds 1-5, all float Gauss-Jordan with entries ~1e-36)
+    oc, on = int(summ.group(10)), int(summ.group(11))
+    oko = oc > 0 and on <= max(3, oc // 1000)
+    chk.oblige("residue:nonfinite-outside-range: beyond the property's dynamic range (not claimed): result finite unless the exact inverse has an entry above max()/4, "
+               "exceptions %d of %d <= max(3, 0.1 %%)" % (on, oc), "residue", oko, None if oko else {"checked": oc, "nonfinite": on})
+    if not oko:
+        chk.fail("residue:nonfinite-outside-range", "residue:nonfinite-outside-range", "inf/NaN results on matrices with a tiny entry (outside the property's "
+                 "dynamic range, cond < 1/eps^2, exact inverse representable) have become frequent: %d of %d" % (on, oc),
+                 {"examples": [l[:900] for l in out.split("\n") if l.startswith("ROUTSIDE ")][:3]}, on > 0)
     resid = {}
     for m in re.finditer(r"RRESIDUAL (\S+) (d|f) worst=(\S+)", out):
         resid.setdefault(m.group(1), {})["double" if m.group(2) == "d" else "float"] = float(m.group(3))
@@ -407,6 +468,13 @@ def residue(chk, binary, n):
             what = "%s returns inf/nan for a matrix with cond < 1/eps^2" % path
         elif kind == "spelling":
             what = "%s: the `bool singExc` body called with false returns something else than the noexcept body (duplicated code diverged)" % path
+        elif kind == "accuracy2":
+            what = ("%s: error above the CEILING %g*cond^2*eps*|X| that the recorded cofactor-arm finding itself obeys on the calibrated tree "
+                    "(a new numerical defect, not the known cond^2*eps loss)" % (path, C2))
+        elif kind == "accuracy-wellcond":
+            what = "%s: error above the property's %g*cond*eps*|X| on a matrix with cond <= %g, where the cofactor arm conforms on the calibrated tree" % (path, CBOUND, WELLCOND)
+        elif kind == "affine-jump2":
+            what = "%s: fast path and general path differ by more than the ceiling %g*cond^2*eps*|X| (above the recorded jump finding)" % (path, 2 * C2)
         elif kind == "guard":
             what = ("%s: the float code and the independent quad specification of the overflow guard disagree on whether the identity must be returned "
                     "(|det| >= 1 or |det|/numeric_limits<T>::min() above EVERY cofactor of the block => adj/det; |det| < 1 and at or below one => identity)" % path)
@@ -431,6 +499,9 @@ def residue(chk, binary, n):
         "branch_hits": {"|det|>=1": int(summ.group(4)), "|det|<1 (guarded)": int(summ.group(5)), "identity accepted as clean singular outcome among cond <= 1/eps (spec asks for it or cannot decide)": int(summ.group(6))},
         "finite_results_checked_below_cond_1/eps^2": int(summ.group(7)), "integer_lattice_matrices": int(summ.group(8)),
         "excluded_from_the_finiteness_claim (a non-zero entry below eps^2*max|entry|, e.g. the denormal one-ulp perturbation of a 0)": int(summ.group(9)),
+        "outside_that_range_with_cond<1/eps^2: checked for `finite unless the exact inverse has an entry above max()/4`": int(summ.group(10)),
+        "outside_that_range: non-finite although the exact inverse is representable (NOT a failure of the property; share bounded)": int(summ.group(11)),
+        "outside_that_range_examples": [l[:700] for l in out.split("\n") if l.startswith("ROUTSIDE ")][:3],
         "classes": dict(kv.split("=") for kv in (re.search(r"RCLASSES (.*)", out).group(1).split() if re.search(r"RCLASSES (.*)", out) else []))}
 
 
@@ -446,8 +517,14 @@ def run(chk):
                        "per code path against a 113-bit inverse (partial)",
                        "theorems are over an arbitrary ordered field with tmin = numeric_limits<T>::min() a parameter; WHICH constant the code reads is "
                        "pinned at extraction (tools/pins) and measured by the guard specification (min() hard-wired there)",
-                       "the guard specification decides only outside its rounding band (band sizes are in the evidence); Gauss-Jordan: an identity "
-                       "result is a failure only for cond < 1/(64 eps)"]
+                       "the guard specification decides only outside its rounding band (band sizes are in the evidence; of the guard-edge classes "
+                       "built to be decided at most 2 % may fall into it); Gauss-Jordan: an identity result is a failure only for cond < 1/(64 eps)",
+                       "finiteness: 'bounded dynamic range' = max|entry| / min non-zero |entry| <= 1/eps^2 (the largest condition number in the clause); "
+                       "inputs beyond it are excluded from the claim, counted, and held to a weaker statement with a bounded share of exceptions",
+                       "the three known findings are path-wide keys; the same paths are held to a cond^2*eps ceiling (where cond^2*eps <= 1/16) and to "
+                       "8*cond*eps for cond <= 100 under separate keys; beyond cond^2*eps = 1/16 the cofactor arms are covered by the finding only",
+                       "drift ceilings and class floors are calibrated on the clean tree (seeds 1-5, thorough size) and could in principle be "
+                       "exceeded by an unlucky seed without any change of the source"]
     chk.rule = ("theorems: all matrices. correspondence: dyadic matrices with power-of-two pivots (exact), signed scaled permutations (swap at every "
                 "stage), random / integer / graded, zero column or row at each position, LU products with a zero pivot first met at each stage, "
                 "rank-deficient, affine, nearly singular, signed zeros/denormals/huge/inf/nan; 3x3 and 4x4, double and float. residue: well "
@@ -464,9 +541,21 @@ def run(chk):
         troute.tv(chk, bins["sym_c06"], "c06", 600 if chk.thorough else 96, idx_deps=[IDX_GJ])
         if hasattr(troute, "lean_tv"):
             troute.lean_tv(chk, bins["sym_c06"], "c06", index, n=8 if chk.thorough else 3, idx_deps=[IDX_GJ])
+            # M44.inverse / M44.invert call the opaque hand model: sym_c06.cpp gives the callee at exact fractions (the exact inverse /
+            # identity, which is what M44.gjInverse is PROVED to be over Rat), so these two entries are validated too
+            sk = chk.extra.get("lean_tv", {}).get("c06", {}).get("skipped_external_calls")
+            chk.oblige("lean-tv:c06: no entry skipped (M44.inverse/invert: emitted call of M44.gjInverse at Rat vs the exact inverse computed by the extractor)",
+                       "translation-validation", sk == 0, {"skipped": sk})
+            if sk:
+                chk.fail("lean-tv:c06", "lean-tv:c06:skipped", "entries with opaque calls were skipped by the Lean-side validation", {"skipped": sk}, False)
         for d in index:
             chk.sample({"entry": d["name"], "paths": d.get("paths")})
     chk.check_theorems(MODULE, required=REQUIRED, search=lambda name: inverse_search(chk, bins.get("sym_c06"), name))
+    ths = [t[0] for t in lib.theorems_in(os.path.join(lib.LEAN, *MODULE.split(".")) + ".lean")]
+    notreq = [t for t in ths if t not in REQUIRED]
+    chk.oblige("theorems: REQUIRED lists every theorem of Props/C06.lean (%d)" % len(ths), "theorem", not notreq and len(ths) == len(REQUIRED), notreq or None)
+    if notreq:
+        chk.fail("theorems: REQUIRED", "required:unlisted", "Props/C06.lean has theorems that the check does not require (deleting them would be silent)", {"unlisted": notreq}, False)
     if bins.get("c06_inv"):
         if rcd == 0:
             correspondence(chk, bins["c06_inv"], 2000 if chk.thorough else 150)
